@@ -2,7 +2,6 @@ package decoder
 
 import (
 	"context"
-	"errors"
 
 	"github.com/hashicorp/hcl-lang/lang"
 	"github.com/hashicorp/hcl-lang/schema"
@@ -177,28 +176,6 @@ func VerifP_C06C07_LabelCandidates(mode int) {
 		verifAssert(len(cs.List) == total, "C07:labels-below-limit-all-offered")
 	}
 	verifReach("end")
-}
-
-// verifFaultyReader: a path reader whose paths can individually fail.
-type verifFaultyReader struct {
-	order []string
-	ctxs  map[string]*PathContext
-	fail  map[string]bool
-}
-
-func (r *verifFaultyReader) Paths(ctx context.Context) []lang.Path {
-	out := make([]lang.Path, 0)
-	for _, p := range r.order {
-		out = append(out, lang.Path{Path: p})
-	}
-	return out
-}
-
-func (r *verifFaultyReader) PathContext(path lang.Path) (*PathContext, error) {
-	if r.fail[path.Path] {
-		return nil, errors.New("unreadable path")
-	}
-	return r.ctxs[path.Path], nil
 }
 
 // C14 (K): workspace symbols over three paths; which paths are unreadable is symbolic, the query
